@@ -56,8 +56,8 @@ CHECKS = {
  "C18": dict(level="exploration", tech="round-trip monitor on documents reached through generated histories and on generated YSON literals: export -> text -> parse -> text (stable), SetYSON into a new document -> export (equal), canonical content of the rebuilt document through a view that bypasses the exporter, and the rebuilt document's changes through the wire codec into a third document",
    text="Subject+peer histories over the full generator alphabet with scar steps (concurrent edits, GC, snapshot round trip), styles and style removal, non-BMP characters, nested containers, counters, plus values real documents hold (punctuation, the exporter's own keywords, {\"type\":\"paragraph\"} objects, control characters, 64-bit extremes); at sampled points the compaction/revision round trip is performed. Literal family: random YSON values of every type and nesting are marshalled, parsed, re-marshalled, set into a document and exported again.",
    note="in-process; packs.Compact's rebuild-compare on the live server is exercised on every compaction of C10; dedup counters that already counted are compared up to the rebuilt document only (F-DEDUP-HLL-OPS, pinned witness)."),
- "C19": dict(level="exploration", tech="exhaustive enumeration of upstream's five tree-concurrency matrices (1592 operation x range pairs, each in both log orders = 3184 cases) on real Documents exchanging changes through the wire codec, with a change-fed and a snapshot-fed passive replica; convergence (ToXML) and Root()==Marshal() oracles",
-   text="The matrices of test/complex/tree_concurrency_test.go (edit-edit, split-split, split-edit, style-style, edit-style), which upstream can only run with MongoDB and build tags and where a diverging pair is t.Skip()ped, are ported literally; every pair runs in both orders in which the two changes can reach the log. Oracle: no operation or apply fails/panics; ToXML of both editors, of a replica fed by the log and of a replica decoded from the server-style snapshot are identical; Root()==Marshal() on every replica. A failing pair is reported under its name.",
+ "C19": dict(level="exploration", tech="exhaustive enumeration of upstream's five tree-concurrency matrices (1592 operation x range pairs x both log orders x both actor-id assignments x two authors of the initial tree = 12736 cases) on real Documents exchanging changes through the wire codec, with a change-fed and a snapshot-fed passive replica; convergence (ToXML) and Root()==Marshal() oracles",
+   text="The matrices of test/complex/tree_concurrency_test.go (edit-edit, split-split, split-edit, style-style, edit-style), which upstream can only run with MongoDB and build tags and where a diverging pair is t.Skip()ped, are ported literally; every pair runs in both log orders, with both assignments of the greater actor id and with the initial tree written by the first editor or a third client; a fifth replica loads a snapshot taken between the two changes. Oracle: no operation or apply fails/panics; ToXML of both editors, of a replica fed by the log and of a replica decoded from the server-style snapshot are identical; Root()==Marshal() on every replica. A failing pair is reported under its name.",
    note="in-process exchange instead of the RPC server; exactly upstream's matrix, one operation per client."),
  "C20": dict(level="exploration", tech="reference-model monitor of the change-range cache (mongo.ChangeStore driven with mongo.Client's exact protocol against a ground-truth table, fetcher calls audited), the same under parallel readers with the race detector, and a change-fed shadow vs packs.BuildInternalDocForServerSeq on the live server under random request order, eviction, competing documents and caller-side mutation of the returned document",
    text="Random sequences of push / read(from,to) / evict / detach with presence-only holes: every read must return exactly the stored operation rows of its range in order plus the cached presence rows; the fetcher is never asked for a covered sequence number or outside the range. 4 readers + 1 pusher in parallel under -race. On the real server (snapshot interval 1..4, 2-entry snapshot cache, two competing documents) random BuildInternalDocForServerSeq(s) calls between the pushes of generated histories, each repeated after scribbling on the returned document, must equal a change-fed shadow at s.",
